@@ -12,10 +12,10 @@
      order), C01_order_by, C01_distinct, C01_limit, C01_groups (component theorems of the modifiers);
    - NOT proved (_partial, correspondence only): sub-selects with aggregates / GROUP BY / LIMIT / SELECT *, the value of
      the aggregates, LIMIT as "a legal cut" of the whole answer, groups consisting of a single BIND or FILTER,
-     FILTER / BIND inside GRAPH ?g that mention ?g, a same-scope scan group that repeats a pattern. *)
+     FILTER / BIND inside GRAPH ?g that mention ?g. *)
 Require Import KV.Sparql.Base KV.Sparql.Syntax KV.Sparql.MuProofs KV.Sparql.JoinProofs KV.Sparql.Algebra KV.Sparql.Engine
         KV.Sparql.Lowering KV.Sparql.PlanEquiv KV.Sparql.Sem KV.Sparql.Bridge KV.Sparql.Classes KV.Sparql.ScanProofs
-        KV.Sparql.SemProofs KV.Sparql.ExecLemmas KV.Sparql.BridgeProofs KV.Sparql.EngineProofs KV.Sparql.PlanProofs
+        KV.Sparql.SemProofs KV.Sparql.ExecLemmas KV.Sparql.BridgeProofs KV.Sparql.IdemProofs KV.Sparql.EngineProofs KV.Sparql.PlanProofs
         KV.Sparql.PatternProofs KV.Sparql.ModifierProofs.
 Require Import Permutation Sorted.
 
@@ -23,8 +23,8 @@ Require Import Permutation Sorted.
    most `inb` is joining those rows with the denotation of l.  (ok_in: the complement of the classes
    C01-undef-filter-sibling and C01-bind-target-sibling, computed on the lowered query.) *)
 Theorem C01_exec_input_join :
-  forall st ev, named_nodup ev ->
-  forall l p, implementsb l p = true -> nodup_groups l = true ->
+  forall st ev, named_nodup ev -> store_sets st ->
+  forall l p, implementsb l p = true ->
   forall inb active inc, ok_in inb l = true -> all_wf inc -> dom_in inb inc ->
     exec st ev active p inc ≡ₚ join inc (sem st ev active l).
 Proof. exact exec_sem. Qed.
@@ -81,6 +81,12 @@ Theorem C01_bind_arg_unbound_refuted :
   wimpl wq_e = true /\ in_class 5 wq_e = true /\ ~ Permutation (wrun wds0 wq_e) (wspec wds0 wq_e).
 Proof. exact refuted_e. Qed.
 Print Assumptions C01_bind_arg_unbound_refuted.
+
+(* C01-group-by-without-aggregate: on three solutions in two groups, finalize_select returns three rows, the algebra two *)
+Theorem C01_group_by_without_aggregate_refuted :
+  List.length (finalize_select wsel_gb wrows_gb) = 3%nat /\ List.length (render (columns wsel_gb) (modifiers wsel_gb wrows_gb)) = 2%nat.
+Proof. exact refuted_gb. Qed.
+Print Assumptions C01_group_by_without_aggregate_refuted.
 
 (* ... and each witness violates a hypothesis of C01_pattern *)
 Theorem C01_witnesses_outside :
